@@ -61,9 +61,9 @@ BuildInput(f) ==
 
 (* ---- a coordination cycle ---- *)
 \* placeholders of the right shape while no cycle runs (TLC compares old and new values of every variable)
-CycIdle == [modes |-> <<>>, postFail |-> <<>>, failScale |-> -1]
+CycIdle == [modes |-> <<>>, postFail |-> <<>>, rej |-> <<>>, failScale |-> -1]
 InIdle  == [id |-> "idle", opts |-> KOpts, shards |-> <<>>, active |-> <<>>, explore |-> <<>>, failScale |-> 0]
-NoFaults == [modes |-> [i \in 1..MaxN |-> "ok"], postFail |-> [i \in 1..MaxN |-> FALSE], failScale |-> 0]
+NoFaults == [modes |-> [i \in 1..MaxN |-> "ok"], postFail |-> [i \in 1..MaxN |-> FALSE], rej |-> [i \in 1..MaxN |-> FALSE], failScale |-> 0]
 FaultCount(f) == Cardinality({i \in 1..MaxN : f.modes[i] # "ok"}) + Cardinality({i \in 1..MaxN : f.postFail[i]}) + (IF f.failScale # 0 THEN 1 ELSE 0)
 StartCycle(f) ==
   /\ pc = "idle" /\ nsh >= 1
@@ -95,6 +95,10 @@ EndCycle ==
   /\ LET n2 == IF StaticShards THEN nsh ELSE EffectiveScale
          upd(i) == IF i <= nsh /\ posts # <<>> /\ posts[i].sent /\ posts[i].ok
                      THEN CapTimes(S!Update(WithClock(sc[i]), AssignSeq(posts[i].targets)))
+                     \* the update reached the sidecar, whose reload of Prometheus failed: an error for the coordinator,
+                     \* the sidecar's memory has taken the request over, nothing stored, Prometheus as before
+                     ELSE IF i <= nsh /\ posts # <<>> /\ posts[i].sent /\ ~posts[i].ok /\ cyc.rej[i]
+                     THEN CapTimes(S!UpdateRejected(WithClock(sc[i]), AssignSeq(posts[i].targets)))
                      ELSE sc[i]
      IN /\ nsh' = n2
         /\ sc' = [i \in 1..MaxN |-> IF i > n2 THEN Fresh(clock)            \* removed (or not yet existing): nothing kept
@@ -111,11 +115,13 @@ ScrapeAll(w, ts) ==
        IN ScrapeAll(S!Scrape(w, t, alive[t], size[t].series, size[t].total), Tail(ts))
 \* the scrapes of the targets in TS complete on shard i (a whole round: TS = everything it holds; a round that was
 \* under way while a cycle ran: TS = what it had been asked before the cycle and still holds)
+\* Prometheus asks for the targets of the configuration it has loaded; the proxy answers for those the sidecar holds
+LoadedH(w) == {p[2] : p \in w.loaded}
 ScrapeSet(i, TS) ==
-  /\ pc = "idle" /\ i <= nsh /\ TS \cap DOMAIN sc[i].status # {}
-  /\ sc' = [sc EXCEPT ![i] = CapTimes(ScrapeAll(sc[i], SetToSortSeq(TS \cap DOMAIN sc[i].status, <)))]
+  /\ pc = "idle" /\ i <= nsh /\ TS \cap LoadedH(sc[i]) \cap DOMAIN sc[i].status # {}
+  /\ sc' = [sc EXCEPT ![i] = CapTimes(ScrapeAll(sc[i], SetToSortSeq(TS \cap LoadedH(sc[i]) \cap DOMAIN sc[i].status, <)))]
   /\ UNCHANGED <<nsh, disc, size, alive, est, clock, faults, envs, cyc, kvars>>
-ScrapeRound(i) == ScrapeSet(i, DOMAIN sc[i].status)
+ScrapeRound(i) == ScrapeSet(i, LoadedH(sc[i]))
 
 (* ---- environment ---- *)
 Tick ==
@@ -173,10 +179,12 @@ KInit ==
   /\ pc = "idle" /\ in = InIdle /\ ch = <<>> /\ pl = <<>> /\ ld = <<>> /\ idl = <<>> /\ need = ZeroLoad /\ cur = 0
   /\ vis = {} /\ tot = 0 /\ sps = <<>> /\ scale = 0 /\ reqs = <<>> /\ posts = <<>> /\ scales = <<>>
 
-\* one fault per cycle: one shard in a bad mode, one targets POST lost, or one scale request failing
+\* one fault per cycle: one shard in a bad mode, one targets POST lost or refused by the sidecar (its reload of Prometheus
+\* failed), or one scale request failing
 OneFault ==
   {[NoFaults EXCEPT !.modes[i] = m] : i \in 1..MaxN, m \in {"notready", "statusfail", "rtfail", "pushfail", "rt2fail", "stale", "pushok"}}
   \cup {[NoFaults EXCEPT !.postFail[i] = TRUE] : i \in 1..MaxN}
+  \cup {[NoFaults EXCEPT !.postFail[i] = TRUE, !.rej[i] = TRUE] : i \in 1..MaxN}
   \cup {[NoFaults EXCEPT !.failScale = k] : k \in {1, 2}}
 KNext ==
   \/ \E f \in {NoFaults} \cup (IF faults < FaultBudget THEN OneFault ELSE {}) : StartCycle(f)
@@ -196,7 +204,7 @@ KFair == KSpec /\ WF_allvars(StartCycle(NoFaults)) /\ WF_allvars(CycleStep) /\ W
 (* the observable world, in the shape the harness records it (next-state version: all primed) *)
 ShardProj(w) ==
   [assign |-> LET a == w.assign IN [k \in DOMAIN a |-> [h |-> a[k].h, state |-> a[k].state, series |-> a[k].series, total |-> a[k].total]],
-   status |-> S!Proj(w).status, idleAt |-> w.idleAt]
+   status |-> S!Proj(w).status, idleAt |-> w.idleAt, loaded |-> SetToSortSeq(LoadedH(w), <)]
 WorldProj(n, s, d, sz, al, e, c) ==
   [nsh |-> n, clock |-> c, shards |-> [i \in 1..n |-> ShardProj(s[i])], disc |-> SetToSortSeq(d, <),
    size |-> [t \in Targets |-> sz[t]], alive |-> [t \in Targets |-> al[t]], est |-> [t \in Targets |-> e[t]]]
@@ -211,6 +219,8 @@ EligibleT(t) == /\ t \in disc /\ alive[t] /\ est[t].known /\ est[t].health = "up
 OversizedT(t) == (KOpts.maxHead # 0 /\ size[t].series > KOpts.maxHead) \/ size[t].total > KOpts.maxProc
 Converged ==
   /\ \A t \in Targets : EligibleT(t) => Cardinality(Holders(t)) = 1
+  \* ... and is scraped there: the shard's Prometheus runs with it
+  /\ \A t \in Targets : EligibleT(t) => \A i \in Holders(t) : t \in LoadedH(sc[i])
   /\ \A i \in 1..nsh : \A t \in DOMAIN sc[i].status : sc[i].status[t].state = ""
   /\ \A i \in 1..nsh : \A t \in DOMAIN sc[i].status : t \in disc
 \* C03: once the environment has stopped changing, the converged state is reached and kept
